@@ -80,7 +80,11 @@ func runC14(c *Ctx) {
 			user := users[c.T.Choose(len(users))].Username
 			ch := s.chal
 			if ch == nil {
-				ch, what = dummy, "auth-correct-password-without-negotiate("+user+")"
+				// no challenge was issued on this session: the client proves the password
+				// against a challenge of its own choosing, or against none at all
+				k := c.T.Choose(3)
+				ch = []*codec.NTLMChallenge{dummy, {ServerChallenge: nil, TargetInfo: []byte{0, 0, 0, 0}}, {ServerChallenge: make([]byte, 8), TargetInfo: []byte{0, 0, 0, 0}}}[k]
+				what = fmt.Sprintf("auth-correct-password-without-negotiate(%s,%s)", user, []string{"made-up challenge", "empty challenge", "all-zero challenge"}[k])
 			} else {
 				what = "auth-correct(" + user + ")"
 				if db[user] != "" && s.lastOK && time.Since(s.firstTouch) < 55*time.Second {
